@@ -1,3 +1,4 @@
 //! Reference models — no TurDB code in this crate.
+pub mod sql;
 pub mod val;
 pub use val::V;
